@@ -234,6 +234,26 @@ def gen(out_rs, out_json):
                           cfg=dict(flavour=r["kind"], policy=r["policy"] or "fifo", limit=r["limit"],
                                    ttl=r["ttl"], maxmem=r["maxmem"], w=r["w"] or "none")))
     json.dump(table, open(out_json, "w"), indent=1)
+    # layouts of the single-function fixtures as a TLA+ set (input of SystemSim.tla: TLC picks a real
+    # fixture's configuration and generates behaviours for it)
+    def tq(xs):
+        return "<<" + ", ".join('"%s"' % x for x in xs) + ">>"
+    lay = []
+    for t in table:
+        if t.get("corpus") or t["awaits"] or t["name"].startswith("g_") or t["name"].startswith("t_tags") or t["name"].startswith("t_deps"):
+            continue
+        c = t["cfg"]
+        lay.append('  [fx |-> "%s", cfg |-> [flavour |-> "%s", policy |-> "%s", limit |-> %d, ttl |-> %d, maxmem |-> %d, w |-> "%s"],\n'
+                   '   meta |-> [fixture |-> "%s", cacheName |-> "%s", kind |-> "%s", isResult |-> %s, hasCif |-> %s, hasInv |-> %s,\n'
+                   '             stats |-> %s, tags |-> %s, events |-> %s, deps |-> %s, warm |-> FALSE], extra |-> %d]'
+                   % (t["name"], c["flavour"], c["policy"], c["limit"], c["ttl"], c["maxmem"], c["w"], t["name"], t["cache_name"],
+                      t["kind"], str(t["isResult"]).upper(), str(t["hasCif"]).upper(), str(t["hasInv"]).upper(),
+                      str(t["kind"] != "thread").upper(), tq(t["tags"]), tq(t["events"]), tq(t["deps"]),
+                      8 if t["ret"] == "res_str" else 0))
+    open(os.path.join(os.path.dirname(os.path.dirname(out_json)), "spec", "FixtureLayouts.tla"), "w").write(
+        "---- MODULE FixtureLayouts ----\n\\* GENERATED by lib/gen_fixtures.py -- do not edit.\n"
+        "\\* configuration and wrapper attributes of the single-function fixtures of the harness\n"
+        "FixtureLayouts == {\n" + ",\n".join(lay) + "\n}\n====\n")
     with open(os.path.join(os.path.dirname(out_json), "attr_rows.ndjson"), "w") as f:
         for t in ATTR_ROWS:
             f.write(json.dumps(t) + "\n")
